@@ -99,6 +99,14 @@ theorem unsigned_noop (st : NodeSt) (m : NMsg) (now : Time) (payloadOf : Tasks.M
     simp only [hv, rejectWith, true_and]
     exact hst1
 
+/-- **guard_in_source.** In the message handler of /repo (regenerated on every run): the statement that calls `verifyMessage`
+comes right after loading the round (`GetFSMInstance` and its error check are the only calls before it), and the only
+messages it lets through unverified are those whose event is the opening proposal — the model's `processMessage` has
+exactly this shape. (The re-initialisation message is dispatched before the handler, in `ProcessMessage`.) -/
+theorem guard_in_source :
+    Gen.NodeGlue.verifyGuard = (2, "fsm.Event(message.Event) != event_sig_proposal_init", ["s.fsmService.GetFSMInstance", "fmt.Errorf"]) := by
+  decide
+
 /-- non-vacuity: a registered sender, a signature that verifies under somebody else's key only -/
 example : ¬ signedByRegisteredSender
     { machine := .sig, state := .s_state_sig_proposal_await_participants_confirmations, dumpState := none,
